@@ -116,22 +116,49 @@ theorem simpleText_of_blank {s : Str} (h : ∀ c ∈ s, isBlank c = true) : Simp
   simp only [isBlank, Bool.or_eq_true, decide_eq_true_eq] at this
   rcases this with rfl | rfl <;> decide
 
-theorem simpleText_lineHead (F : BibtexFormat) (hF : FormatOK F) (col : Nat) (key : Str) (hk : SimpleText key) :
-    SimpleText (lineHead F col key) := by
-  unfold lineHead padding
-  exact simpleText_append (simpleText_append (simpleText_append (simpleText_of_blank hF.indent) hk)
-    (simpleText_replicate_space _)) (by intro c hc; simp at hc; subst hc; decide)
+theorem lineHead_blanks (F : BibtexFormat) (col : Nat) (key : Str) :
+    (∀ x ∈ padding col key ++ [' '], isBlank x = true) ∧
+      lineHead F col key = F.indent ++ key ++ (padding col key ++ [' ']) := by
+  refine ⟨?_, by simp [lineHead]⟩
+  intro x hx
+  rcases List.mem_append.mp hx with h | h
+  · have := List.eq_of_mem_replicate h; subst this; decide
+  · simp at h; subst h; decide
+
+/-- the text before the `=` of a field line consists of plain tokens (text, and newlines if the key has any) -/
+theorem lineHead_plain (hP : PrintOK P) (F : BibtexFormat) (hF : FormatOK F) (col : Nat) (key : Str)
+    (hk : KeyOK P key) : allPlain (lexFrom P false (lineHead F col key)) := by
+  obtain ⟨hbl, hre⟩ := lineHead_blanks F col key
+  rw [hre]
+  exact (lex_keyctx2 hP.word F.indent key _ '=' .eq [] hF.indent hk hbl (by decide) hP.eqWord (by decide)
+    (by decide)).2
+
+/-- ... and the `=` after it is a mark -/
+theorem lex_lineHead (hP : PrintOK P) (F : BibtexFormat) (hF : FormatOK F) (col : Nat) (key : Str)
+    (hk : KeyOK P key) (X : Str) :
+    lexFrom P false (lineHead F col key ++ '=' :: X) =
+      lexFrom P false (lineHead F col key) ++ EQ :: lexFrom P false X := by
+  have hbl : ∀ x ∈ padding col key ++ [' '], isBlank x = true := by
+    intro x hx
+    rcases List.mem_append.mp hx with h | h
+    · have := List.eq_of_mem_replicate h; subst this; decide
+    · simp at h; subst h; decide
+  have hre : lineHead F col key = F.indent ++ key ++ (padding col key ++ [' ']) := by simp [lineHead]
+  rw [hre]
+  exact (lex_keyctx2 hP.word F.indent key _ '=' .eq X hF.indent hk hbl (by decide) hP.eqWord (by decide)
+    (by decide)).1
 
 theorem lineHead_ne_nil (F : BibtexFormat) (col : Nat) (key : Str) : lineHead F col key ≠ [] := by
   simp [lineHead]
 
 /-- `key = {v}}` of an @string: the tokens of the enclosed value are whatever `EncBal` says -/
-theorem lex_assign_str (b : Bool) (t : Str) (ht : SimpleText t) (hne : t ≠ []) (v : Str) (hv : EncBal P v)
+theorem lex_assign_str (b : Bool) (t : Str) (T : List Tok)
+    (hlex : ∀ X, lexFrom P b (t ++ '=' :: X) = T ++ EQ :: lexFrom P false X) (v : Str) (hv : EncBal P v)
     (rest : Str) :
     lexFrom P b (t ++ '=' :: ' ' :: '{' :: (v ++ '}' :: '}' :: rest)) =
-      .text t :: EQ :: (valToks P v ++ lexFrom P false ('}' :: rest)) := by
+      T ++ EQ :: (valToks P v ++ lexFrom P false ('}' :: rest)) := by
   have hsp : SimpleText [' '] := by intro x hx; simp at hx; subst hx; decide
-  rw [lex_simple_delim P b t '=' .eq _ ht hne (by decide)]
+  rw [hlex]
   have hm : startsWithMark (lexFrom P false ('{' :: (v ++ '}' :: '}' :: rest))) := by
     rw [lex_delim P '{' .lbrace _ (by decide)]; trivial
   rw [show (' ' :: '{' :: (v ++ '}' :: '}' :: rest)) = [' '] ++ '{' :: (v ++ '}' :: '}' :: rest) from rfl,
@@ -140,12 +167,13 @@ theorem lex_assign_str (b : Bool) (t : Str) (ht : SimpleText t) (hne : t ≠ [])
 
 /-- `head = {v}` of a field line, followed by the comma or newline the writer emits: the tokens of the
 enclosed value are whatever `EncVal` says (a `Value` of the grammar) -/
-theorem lex_assign_field (b : Bool) (t : Str) (ht : SimpleText t) (hne : t ≠ []) (v : Str) (hv : EncVal P v)
+theorem lex_assign_field (b : Bool) (t : Str) (T : List Tok)
+    (hlex : ∀ X, lexFrom P b (t ++ '=' :: X) = T ++ EQ :: lexFrom P false X) (v : Str) (hv : EncVal P v)
     (c : Char) (r : Str) (hc : c = ',' ∨ c = '\n') :
     lexFrom P b (t ++ '=' :: ' ' :: '{' :: (v ++ '}' :: c :: r)) =
-      .text t :: EQ :: (fvalToks P v ++ lexFrom P false (c :: r)) := by
+      T ++ EQ :: (fvalToks P v ++ lexFrom P false (c :: r)) := by
   have hsp : SimpleText [' '] := by intro x hx; simp at hx; subst hx; decide
-  rw [lex_simple_delim P b t '=' .eq _ ht hne (by decide)]
+  rw [hlex]
   have hm : startsWithMark (lexFrom P false ('{' :: (v ++ '}' :: c :: r))) := by
     rw [lex_delim P '{' .lbrace _ (by decide)]; trivial
   rw [show (' ' :: '{' :: (v ++ '}' :: c :: r)) = [' '] ++ '{' :: (v ++ '}' :: c :: r) from rfl,
@@ -158,10 +186,10 @@ theorem lex_assign_field (b : Bool) (t : Str) (ht : SimpleText t) (hne : t ≠ [
 noncomputable def linesToks (P : PyChars) (F : BibtexFormat) (col : Nat) : List Field → List Tok
   | [] => []
   | f :: fs =>
-    .text (lineHead F col f.key) :: EQ :: (fvalToks P (strOf f.value) ++
+    lexFrom P false (lineHead F col f.key) ++ EQ :: (fvalToks P (strOf f.value) ++
       ((if F.trailingComma || !fs.isEmpty then [CM] else []) ++ NLt :: linesToks P F col fs))
 
-theorem lex_lines (F : BibtexFormat) (hF : FormatOK F) (col : Nat) (fs : List Field)
+theorem lex_lines (hP : PrintOK P) (F : BibtexFormat) (hF : FormatOK F) (col : Nat) (fs : List Field)
     (hfs : ∀ f ∈ fs, FieldOK P f) (rest : Str) :
     lexFrom P false (linesText F col fs ++ rest) = linesToks P F col fs ++ lexFrom P false rest := by
   induction fs with
@@ -177,13 +205,13 @@ theorem lex_lines (F : BibtexFormat) (hF : FormatOK F) (col : Nat) (fs : List Fi
       simp
     by_cases hc : (F.trailingComma || !fs.isEmpty) = true
     · simp only [hc, ↓reduceIte, List.cons_append, List.nil_append] at hre ⊢
-      rw [hre, lex_assign_field false _ (simpleText_lineHead F hF col f.key (hfs f List.mem_cons_self).keySimple)
-        (lineHead_ne_nil F col f.key) v hclean ',' _ (Or.inl rfl),
+      rw [hre, lex_assign_field false _ _ (lex_lineHead hP F hF col f.key (hfs f List.mem_cons_self).keyOK)
+        v hclean ',' _ (Or.inl rfl),
         lex_delim P ',' .comma _ (by decide), lex_delim P '\n' .nl _ (by decide), ih']
       simp [CM, NLt]
     · simp only [hc, Bool.false_eq_true, ↓reduceIte, List.nil_append] at hre ⊢
-      rw [hre, lex_assign_field false _ (simpleText_lineHead F hF col f.key (hfs f List.mem_cons_self).keySimple)
-        (lineHead_ne_nil F col f.key) v hclean '\n' _ (Or.inr rfl),
+      rw [hre, lex_assign_field false _ _ (lex_lineHead hP F hF col f.key (hfs f List.mem_cons_self).keyOK)
+        v hclean '\n' _ (Or.inr rfl),
         lex_delim P '\n' .nl _ (by decide), ih']
       simp [NLt]
 
@@ -228,29 +256,31 @@ theorem lex_entry_core (hP : PrintOK P) (F : BibtexFormat) (hF : FormatOK F) (co
   have hlines : lexFrom P false (',' :: '\n' :: (linesText F col e.fields ++ '}' :: rest)) =
       afterFields (fieldSrcs P F col e.fields) (trailingOf F e.fields) ++ lexFrom P false rest := by
     rw [lex_delim P ',' .comma _ (by decide), lex_delim P '\n' .nl _ (by decide),
-      lex_lines F hF col e.fields he.fields, lex_delim P '}' .rbrace rest (by decide),
+      lex_lines hP F hF col e.fields he.fields, lex_delim P '}' .rbrace rest (by decide),
       ← linesToks_afterFields]
     simp [CM, NLt, RB]
-  by_cases hk : e.key = []
-  · simp only [hk, List.nil_append, srcOf, List.isEmpty_nil, ↓reduceIte, BlockSrc.toks]
-    rw [hlines]; simp [AT, LB]
-  · have hke : e.key.isEmpty = false := by simpa using hk
-    have hm : startsWithMark (lexFrom P false (',' :: '\n' :: (linesText F col e.fields ++ '}' :: rest))) := by
-      rw [lex_delim P ',' .comma _ (by decide)]; trivial
-    rw [lex_simple P false e.key _ he.keySimple hk hm, hlines]
-    simp [srcOf, hke, BlockSrc.toks, AT, LB]
+  have hkey := (lex_keyctx2 hP.word [] e.key [] ',' .comma ('\n' :: (linesText F col e.fields ++ '}' :: rest))
+    (by intro c hc; cases hc) he.keyOK (by intro c hc; cases hc) (by decide) hP.cmWord
+    (by decide) (by decide)).1
+  simp only [List.nil_append, List.append_nil] at hkey
+  rw [hkey, ← lex_delim P ',' .comma ('\n' :: (linesText F col e.fields ++ '}' :: rest)) (by decide), hlines]
+  simp [srcOf, BlockSrc.toks, AT, LB]
 
 theorem lex_string_core (hP : PrintOK P) (F : BibtexFormat) (col : Nat) (k : Str) (v : Str) (l : Int) (r : Str)
-    (m : MetaD) (hk : SimpleText k) (hv : EncBal P v) (b : Bool) (rest : Str) :
+    (m : MetaD) (hk : KeyOK P k) (hv : EncBal P v) (b : Bool) (rest : Str) :
     lexFrom P b (coreOf F col (.live (.string k (.str v) l r m)) ++ rest) =
       (srcOf P F col (.live (.string k (.str v) l r m))).toks ++ lexFrom P false rest := by
   have hre : coreOf F col (.live (.string k (.str v) l r m)) ++ rest =
       '@' :: ("string".toList ++ '{' :: ((k ++ [' ']) ++ '=' :: ' ' :: '{' :: (v ++ '}' :: '}' :: rest))) := by
     simp [coreOf, strOf]
-  have hks : SimpleText (k ++ [' ']) :=
-    simpleText_append hk (by intro c hc; simp at hc; subst hc; decide)
+  have hks : ∀ X, lexFrom P false ((k ++ [' ']) ++ '=' :: X) =
+      lexFrom P false (k ++ [' ']) ++ EQ :: lexFrom P false X := by
+    intro X
+    have := (lex_keyctx2 hP.word [] k [' '] '=' .eq X (by intro c hc; cases hc) hk
+      (by intro c hc; simp at hc; subst hc; decide) (by decide) hP.eqWord (by decide) (by decide)).1
+    simpa [EQ] using this
   rw [hre, lex_at_type P hP.word b _ _ (kw_word hP _ (by decide)),
-    lex_assign_str false _ hks (by simp) v hv, lex_delim P '}' .rbrace rest (by decide)]
+    lex_assign_str false _ _ hks v hv, lex_delim P '}' .rbrace rest (by decide)]
   simp [srcOf, BlockSrc.toks, strOf, AT, LB, RB, EQ]
 
 theorem lex_bracket_core (hP : PrintOK P) (kwd : Str) (hkw : ∀ c ∈ kwd, c ∈ kwLetters) (v : Str)
